@@ -493,6 +493,22 @@ func runC08(c *Ctx) {
 				c.R.Fail("wrong-key:"+e.kind+":"+cls, fmt.Sprintf("%s: %s at %s: edited document is valid on its own, but validation of the stale envelope reports key %q instead of digest: %v", j.it.Rel, e.kind, e.path, key, verr), wit)
 			}
 		}
+		// the other way of recalculating: handing the extracted document back with Insert
+		if i%7 == 0 {
+			if env3, e3 := gx.ParseEnvelope(b); e3 == nil {
+				var ierr, v3 error
+				if p5, _ := Safely(func() {
+					if ierr = env3.Insert(env3.Extract()); ierr == nil {
+						v3 = env3.Validate()
+					}
+				}); p5 == nil && ierr == nil {
+					c.R.Count("recalculated_through_insert", 1)
+					if v3 != nil && gx.ErrKey(v3) == "digest" {
+						c.R.Fail("stale-after-insert:"+e.kind, fmt.Sprintf("%s: %s at %s, then Insert(Extract()): the envelope still reports %v", j.it.Rel, e.kind, e.path, v3), wit)
+					}
+				}
+			}
+		}
 		// after recalculating, a changed document must have a different digest
 		env2, _ := gx.ParseEnvelope(b)
 		var cerr error
@@ -547,5 +563,5 @@ func runC08(c *Ctx) {
 			}
 		}
 	})
-	c.Require("detected_with_key:digest", "edits_parsed:alter-float-next", "reused_target_decodes", "cli_verify_runs", "reencodings:shuffle")
+	c.Require("recalculated_through_insert", "detected_with_key:digest", "edits_parsed:alter-float-next", "reused_target_decodes", "cli_verify_runs", "reencodings:shuffle")
 }
